@@ -57,6 +57,7 @@ type Case struct {
 	SetErr   int  `json:",omitempty"` // the handler that sets the cookies then fails with this status (the error reply carries the cookies too)
 	SetPanic bool `json:",omitempty"` // the handler that sets the cookies then panics; a recover middleware in front of encryptcookie turns that into a 500 reply (which carries the cookies too)
 	Dup      bool `json:",omitempty"` // the handler sets the first cookie's name a second time, for another path, as a Set-Cookie header line
+	Restart  bool `json:",omitempty"` // the requests go to routes whose handlers override the path and restart routing (the stack, with the middleware, runs again inside the first pass)
 	Mutate   bool // run the complete single-character substitution / truncation / extension set on every ciphertext
 }
 
@@ -146,8 +147,20 @@ func check(c Case) vk.Verdict {
 		}
 		return nil
 	})
+	setPath, getPath := "/set", "/get"
+	if c.Restart {
+		setPath, getPath = "/set-r", "/get-r"
+		app.Get("/set-r", func(ctx fiber.Ctx) error {
+			ctx.Path("/set")
+			return ctx.RestartRouting()
+		})
+		app.Get("/get-r", func(ctx fiber.Ctx) error {
+			ctx.Path("/get")
+			return ctx.RestartRouting()
+		})
+	}
 	issue := func() (map[string]string, string) {
-		r := vk.Do(app, "GET", "/set")
+		r := vk.Do(app, "GET", setPath)
 		want := max(c.SetErr, 200)
 		if c.SetPanic {
 			want = 500
@@ -179,7 +192,7 @@ func check(c Case) vk.Verdict {
 				parts = append(parts, ck.Name+"="+v)
 			}
 		}
-		vk.Do(app, "GET", "/get", "Cookie", strings.Join(parts, "; "))
+		vk.Do(app, "GET", getPath, "Cookie", strings.Join(parts, "; "))
 	}
 	wire, msg := issue()
 	if msg != "" {
@@ -477,6 +490,7 @@ func genCase(t *rapid.T) Case {
 	c.SetErr = rapid.SampledFrom([]int{0, 0, 0, 403, 500}).Draw(t, "seterr")
 	c.SetPanic = rapid.IntRange(0, 5).Draw(t, "setpanic") == 0
 	c.Dup = rapid.IntRange(0, 3).Draw(t, "dup") == 0
+	c.Restart = rapid.IntRange(0, 3).Draw(t, "restart") == 0
 	c.Mutate = true
 	for _, ck := range c.Cookies {
 		if len(ck.Value) > 300 {
